@@ -68,11 +68,7 @@ func (g *G) propValue(d *ref.PropDef, zero bool) ref.Prop {
 	case ref.KVarint:
 		p.N = g.Varint()
 	case ref.KUTF8:
-		p.B = g.Str(g.Len1())
-		if c, ok := fieldCorpus[d.ID]; ok && g.T.Bool(1, 3) {
-			// a value that MEANS something for this property
-			p.B = []byte(c[g.T.Int(len(c))])
-		}
+		p.B = g.PropString(d.ID)
 	case ref.KBinary:
 		p.B = g.Bin(g.Len1())
 	case ref.KPair:
@@ -259,6 +255,15 @@ func (g *G) collideFilters(a *ref.AP) {
 	}
 }
 
+// PropString draws the value of a string-typed property: one time in three a
+// value that MEANS something for that property, otherwise a generated string.
+func (g *G) PropString(id byte) []byte {
+	if c, ok := fieldCorpus[id]; ok && g.T.Bool(1, 3) {
+		return []byte(c[g.T.Int(len(c))])
+	}
+	return g.Str(g.Len1())
+}
+
 // fieldCorpus: values with a meaning for string-typed properties (code that
 // "understands" a content type, an authentication method or a server
 // reference behaves differently on them than on random strings).
@@ -268,7 +273,7 @@ var fieldCorpus = map[byte][]string{
 	0x15: {"PLAIN", "SCRAM-SHA-1", "SCRAM-SHA-256", "GS2-KRB5", "OAUTHBEARER", "EXTERNAL", "plain"},
 	0x12: {"client-1", "auto-0000000000000001", "mqtt", "MQTT"},
 	0x1A: {"{}", "ok", "response-information", "a/b"},
-	0x1C: {"localhost:1883", "example.com", "10.0.0.1:8883", "[::1]:1883", "other-server example.com:1883"},
+	0x1C: {"localhost:1883", "example.com", "10.0.0.1:8883", "[::1]:1883", "other-server example.com:1883", "tcp://host:1883", "ssl://host:8883", "mqtt://broker", "mqtts://broker:8883", "ws://host/mqtt", "wss://host:443/mqtt", "tls://h"},
 	0x1F: {"ok", "not authorized", "bad user name or password", "quota exceeded", "Success", "error: %v"},
 }
 
